@@ -76,7 +76,10 @@ func specFloat(width string, bits string) specFn {
 			x := p[1].A[0]
 			if x.Op == "slice" && x.A[0].Op == "le" && x.A[0].K == width {
 				v := x.A[0].A[0]
-				if v.Op == "call" && v.K == bits && loadsFromPtr(v) {
+				// the bits of the value itself: a plain access path from ptr, nothing
+				// chosen or computed on the way (a NaN swapped for the canonical one
+				// no longer round-trips its bit pattern)
+				if v.Op == "call" && v.K == bits && loadsFromPtr(v) && len(v.A) == 1 && isAccessPathT(v.A[0]) {
 					return true, ""
 				}
 			}
@@ -427,4 +430,21 @@ func ruleFieldTag(c *Ctx) {
 	c.Oblige("T.fieldtag", ok && fcOK, fn.Decl.Pos(), fn.Name(), "field.tag = AppendTag(nil, field codec's wire type, field index)",
 		fmt.Sprintf("tags are varint(index<<3|wiretype) of the field's own codec and index; found %q (field.codec = fc: %v)", got, fcOK), nil)
 	c.Floor("T.fieldtag", 1)
+}
+
+// isAccessPathT: the term is a load along a path of dereferences, casts and
+// field selections from a variable - no conditional, call or arithmetic.
+func isAccessPathT(t *T) bool {
+	switch t.Op {
+	case "var":
+		return true
+	case "deref", "cast", "field", "addr", "reinterp":
+		for _, a := range t.A {
+			if !isAccessPathT(a) {
+				return false
+			}
+		}
+		return len(t.A) > 0
+	}
+	return false
 }
